@@ -37,6 +37,7 @@ from happysimulator.components.sync.mutex import Mutex
 from happysimulator.core.clock import Clock
 from happysimulator.core.entity import Entity
 from happysimulator.core.event import Event
+from happysimulator.core.sim_future import SimFuture
 
 logger = logging.getLogger(__name__)
 
@@ -153,8 +154,11 @@ class Condition(Entity):
         # Set up wakeup callback
         woken = [False]
 
+        wake = SimFuture()
+
         def on_wake():
             woken[0] = True
+            wake.resolve()
 
         waiter = _Waiter(callback=on_wake, enqueue_time_ns=enqueue_time)
         self._waiters.append(waiter)
@@ -164,7 +168,7 @@ class Condition(Entity):
 
         # Wait for signal
         while not woken[0]:
-            yield 0.0
+            yield wake  # park until woken: no zero-delay polling
 
         # Reacquire the mutex
         yield from self._lock.acquire()
